@@ -7,7 +7,7 @@ cd /verif
 if [ "$1" = "--rebuild" ]; then git -C /repo checkout -- . ; exec ./check --build-only; fi
 name=$1; shift
 git -C /repo checkout -- .
-git -C /repo apply "seeded/$name/patch.diff" || { echo "PATCH DOES NOT APPLY: $name"; exit 3; }
+git -C /repo apply "/verif/seeded/$name/patch.diff" || { echo "PATCH DOES NOT APPLY: $name"; exit 3; }
 for c in "$@"; do
   t0=$(date +%s)
   out=$(timeout 3000 ./check "$c" 2>&1); code=$?
